@@ -9,14 +9,22 @@ import (
 	"go/ast"
 	"go/parser"
 	"go/token"
+	"bytes"
+	"go/printer"
+	"io/fs"
 	"math/big"
+	"os"
+	"path/filepath"
 	"reflect"
 	"runtime"
+	"sort"
 	"strings"
 
 	"com.tuntun.rangers/node/src/common"
 	"com.tuntun.rangers/node/src/eth_tx"
 	"com.tuntun.rangers/node/src/executor"
+	"com.tuntun.rangers/node/src/middleware"
+	"com.tuntun.rangers/node/src/service"
 	"com.tuntun.rangers/node/src/middleware/db"
 	"com.tuntun.rangers/node/src/middleware/types"
 	"com.tuntun.rangers/node/src/storage/account"
@@ -607,6 +615,10 @@ func main() {
 	// ---- (6) the account database's ERC20-bound coins: binding record and Get/Set/Add/SubFT ----
 	ledgerCases(a, rng, res, cs)
 
+	// ---- (7) the consumers of amount strings: call-site inventory and the ledger transfer entry point ----
+	consumerInventory(res, cs)
+	consumerCases(a, rng, res, cs)
+
 	// strings outside the property's grammar that StrToBigInt nevertheless accepts (reported as a note, not a violation)
 	{
 		r1, e1, _ := safeParse("Inf", 18)
@@ -837,3 +849,226 @@ func ledgerCases(a hx.Args, rng *hx.Rng, res *hx.Result, cs *hx.Cases) {
 		adb.SubFT(h, coins[1].name, nil)
 	}()
 }
+
+// consumerInventory lists, with go/ast over the non-test sources the harness was compiled against, every call
+// of the conversion functions outside their own file and what is handed to them. A site is identified by
+// file|function|callee|argument text; the model side (coq/C18/Sites.v, covered_sites) lists the sites that
+// were reviewed and says by what they are covered. A site that is not listed - a new consumer, or a consumer
+// that now transforms the string before parsing (the argument text changes) - is an uncovered site and
+// breaks the correspondence.
+func consumerInventory(res *hx.Result, cs *hx.Cases) {
+	f := runtime.FuncForPC(reflect.ValueOf(utility.BigIntToStr).Pointer())
+	file, _ := f.FileLine(f.Entry())
+	root := filepath.Dir(filepath.Dir(file)) // .../src
+	callees := map[string]bool{"StrToBigInt": true, "strToBigInt": true, "FormatDecimalForERC20": true, "FormatDecimalForRocket": true,
+		"BigIntToStr": true, "bigIntToStr": true, "BigIntToStrWithoutDot": true, "BigIntBytesToStr": true, "Float64ToBigInt": true, "Uint64ToBigInt": true}
+	var sites []string
+	fset := token.NewFileSet()
+	filepath.WalkDir(root, func(path string, d fs.DirEntry, err error) error {
+		if err != nil || d.IsDir() || !strings.HasSuffix(path, ".go") || strings.HasSuffix(path, "_test.go") || strings.HasPrefix(filepath.Base(path), "verif_") {
+			return nil
+		}
+		src, err := os.ReadFile(path)
+		if err != nil || !(bytes.Contains(src, []byte("utility.")) || filepath.Base(filepath.Dir(path)) == "utility") {
+			return nil
+		}
+		af, err := parser.ParseFile(fset, path, src, 0)
+		if err != nil {
+			sites = append(sites, "PARSE-ERROR|"+path)
+			return nil
+		}
+		inUtility := af.Name.Name == "utility"
+		rel, _ := filepath.Rel(root, path)
+		for _, decl := range af.Decls {
+			fd, ok := decl.(*ast.FuncDecl)
+			fname := "(package level)"
+			var node ast.Node = decl
+			if ok {
+				fname = fd.Name.Name
+				if fd.Body == nil {
+					continue
+				}
+				node = fd.Body
+			}
+			ast.Inspect(node, func(n ast.Node) bool {
+				c, ok := n.(*ast.CallExpr)
+				if !ok {
+					return true
+				}
+				name := ""
+				switch fn := c.Fun.(type) {
+				case *ast.SelectorExpr:
+					if x, ok := fn.X.(*ast.Ident); ok && x.Name == "utility" {
+						name = fn.Sel.Name
+					}
+				case *ast.Ident:
+					if inUtility {
+						name = fn.Name
+					}
+				}
+				if !callees[name] || len(c.Args) == 0 {
+					return true
+				}
+				var args []string
+				for _, arg := range c.Args {
+					var b bytes.Buffer
+					printer.Fprint(&b, fset, arg)
+					args = append(args, strings.Join(strings.Fields(b.String()), " "))
+				}
+				sites = append(sites, fmt.Sprintf("%s|%s|%s|%s", filepath.ToSlash(rel), fname, name, strings.Join(args, ", ")))
+				return true
+			})
+		}
+		return nil
+	})
+	sort.Strings(sites)
+	uniq := sites[:0]
+	for i, s := range sites {
+		if i == 0 || s != sites[i-1] {
+			uniq = append(uniq, s)
+		}
+	}
+	if out := os.Getenv("C18_EMIT_SITES"); out != "" {
+		os.WriteFile(out, []byte(strings.Join(uniq, "\n")+"\n"), 0644)
+	}
+	for _, s := range uniq {
+		cs.Add("CSite "+hx.CoqStr(s), map[string]interface{}{"fn": "call-site inventory", "site": s})
+	}
+	cs.Add(fmt.Sprintf("CSiteCount %d%%Z", len(uniq)), map[string]interface{}{"fn": "call-site inventory", "sites": len(uniq)})
+	res.Note(fmt.Sprintf("call-site inventory: %d calls of the conversion functions in the non-test sources under %s, each compared with coq/C18/Sites.v", len(uniq), root))
+	res.Count("call-site-inventory", "SITES", false)
+}
+
+// consumerCases drives the ledger transfer entry point end to end: an operator transaction whose extra data
+// names target addresses and amount strings goes through operatorExecutor.Execute -> service.ChangeAssets ->
+// transferBalance on an in-memory AccountDB. The amount debited and credited must be the integer the string
+// denotes, and sweeping a balance with the string the node itself prints must leave exactly 0.
+func consumerCases(a hx.Args, rng *hx.Rng, res *hx.Result, cs *hx.Cases) {
+	defer func() {
+		if p := recover(); p != nil {
+			res.Violate("C18/panic:consumer", fmt.Sprint(p), "consumerCases")
+		}
+	}()
+	middleware.InitMiddleware()
+	service.InitService()
+	executor.InitExecutors()
+	m, _ := db.NewMemDatabase()
+	adb, err := account.NewAccountDB(common.Hash{}, account.NewDatabase(m))
+	if err != nil {
+		panic(err)
+	}
+	opx := executor.GetTxExecutor(types.TransactionTypeOperatorEvent)
+	header := &types.BlockHeader{Height: 1}
+	const site = "ChangeAssets"
+	transfer := func(kind string, srcBal *big.Int, amount string, want *big.Int) {
+		src := common.BytesToAddress(rng.Bytes(20))
+		dst := common.BytesToAddress(rng.Bytes(20))
+		tgtBefore := new(big.Int).SetBytes(rng.Bytes(rng.Intn(12)))
+		adb.SetBalance(src, srcBal)
+		adb.SetBalance(dst, tgtBefore)
+		extra, _ := json.Marshal(map[string]types.TransferData{dst.GetHexString(): {Balance: amount}})
+		tx := &types.Transaction{Source: src.GetHexString(), Type: types.TransactionTypeOperatorEvent, ExtraData: string(extra), Hash: common.BytesToHash(rng.Bytes(32))}
+		var ok bool
+		var msg string
+		if p := func() (p interface{}) {
+			defer func() { p = recover() }()
+			ok, msg = opx.Execute(tx, header, adb, map[string]interface{}{"situation": "testing"})
+			return nil
+		}(); p != nil {
+			res.Violate("C18/panic:consumer:"+site, fmt.Sprint(p), map[string]interface{}{"amount": amount, "source_balance": srcBal.String()})
+			return
+		}
+		srcAfter, dstAfter := adb.GetBalance(src), adb.GetBalance(dst)
+		debited := new(big.Int).Sub(srcBal, srcAfter)
+		credited := new(big.Int).Sub(dstAfter, tgtBefore)
+		in := map[string]interface{}{"amount": amount, "source_balance": srcBal.String(), "kind": kind}
+		expectOK := want.Sign() >= 0 && want.Cmp(srcBal) <= 0
+		switch {
+		case expectOK && (!ok || debited.Cmp(want) != 0 || credited.Cmp(want) != 0):
+			res.Violate("C18/consumer:"+site+":amount-differs", fmt.Sprintf("%s: transfer of %q (denotes %v units) from a balance of %v: ok=%v (%s), debited %v, credited %v, source left with %v", kind, amount, want, srcBal, ok, msg, debited, credited, srcAfter), in)
+		case !expectOK && (ok || debited.Sign() != 0 || credited.Sign() != 0):
+			res.Violate("C18/consumer:"+site+":amount-differs", fmt.Sprintf("%s: transfer of %q (denotes %v units) from a balance of %v must be refused: ok=%v, debited %v, credited %v", kind, amount, want, srcBal, ok, debited, credited), in)
+		case expectOK:
+			// the reply prints what is left
+			var reply map[string]interface{}
+			left := utility.BigIntToStr(srcAfter)
+			if json.Unmarshal([]byte(msg), &reply) != nil || reply["balance"] != left {
+				res.Violate("C18/consumer:"+site+":reply-differs", fmt.Sprintf("reply %s, balance left %s", msg, left), in)
+			}
+		}
+		if ok {
+			cs.Add(fmt.Sprintf("CParse %s 18%%Z (OOk %s)", hx.CoqHex([]byte(amount)), coqBig(credited)), map[string]interface{}{"fn": "ChangeAssets: amount credited", "s": amount, "credited": credited.String()})
+		}
+		res.Count("consumer-"+site+"-"+kind, fmt.Sprintf("C|%s|%s", srcBal.String(), amount), want.Sign() != 0)
+		if res.Evaluations%53 == 0 {
+			res.Sample(map[string]interface{}{"fn": "ChangeAssets", "amount": trunc(amount), "source_balance": trunc(srcBal.String()), "debited": trunc(debited.String()), "ok": ok})
+		}
+	}
+	nonzeroDigits := func(n int) string { // n digits, the last one non-zero
+		if n == 0 {
+			return ""
+		}
+		d := []byte(randDigits(rng, n))
+		d[n-1] = byte('1' + rng.Intn(9))
+		return string(d)
+	}
+	n := 6
+	if a.Tier == "thorough" {
+		n = 60
+	}
+	for rep := 0; rep < n; rep++ {
+		// amounts with every number of fractional digits 0..18, last digit non-zero
+		for fl := 0; fl <= 18; fl++ {
+			if rep > 0 && fl < 17 && rng.Intn(3) != 0 {
+				continue
+			}
+			ipLen := []int{1, 1, 2, 5, 20, 40, 59}[rng.Intn(7)]
+			ip := randDigits(rng, ipLen)
+			if rep == 0 {
+				ip = "1"
+			}
+			fp := nonzeroDigits(fl)
+			if rep == 0 && fl > 0 {
+				fp = strings.Repeat("0", fl-1) + "1"
+			}
+			amount := ip
+			if fl > 0 {
+				amount += "." + fp
+			}
+			mant, _ := new(big.Int).SetString(ip+fp, 10)
+			want := new(big.Int).Mul(mant, pow10(18-fl))
+			bal := new(big.Int).Add(want, new(big.Int).SetBytes(rng.Bytes(rng.Intn(10))))
+			switch rng.Intn(6) {
+			case 0:
+				bal = new(big.Int).Set(want) // exactly enough
+			case 1:
+				if want.Sign() > 0 {
+					bal = new(big.Int).Sub(want, big.NewInt(1)) // one unit short: must be refused
+				}
+			}
+			transfer(fmt.Sprintf("frac%02d", fl), bal, amount, want)
+		}
+		// sweep: the node's own printout of a random balance
+		for k := 0; k < 4; k++ {
+			var bal *big.Int
+			switch k {
+			case 0:
+				bal = mk2("2500000000000000003")
+			case 1:
+				bal = new(big.Int).Sub(two256, big.NewInt(int64(1+rng.Intn(1000))))
+			case 2:
+				bal = new(big.Int).SetBytes(rng.Bytes(1 + rng.Intn(32)))
+			default:
+				bal = new(big.Int).Abs(randInt(rng))
+				if bal.Cmp(two256) >= 0 {
+					bal.Rsh(bal, uint(bal.BitLen()-255))
+				}
+			}
+			transfer("sweep", bal, utility.BigIntToStr(bal), bal)
+		}
+	}
+	// refused forms: negative amount, malformed amount
+	transfer("negative", mk2("5000000000000000000"), "-1", big.NewInt(-1))
+}
+
+func mk2(s string) *big.Int { n, _ := new(big.Int).SetString(s, 10); return n }
